@@ -53,6 +53,21 @@ def rerun(ctx, rec, full=False):
     return bool(bad), new, (bad[0][1] if bad else None)
 
 
+def rerun_many(ctx, recs, full=False):
+    """re-execute the records in ONE fresh process, in order, and judge the LAST one"""
+    vh = ctx.build()
+    d = ctx.sub("replayctx")
+    i, o = os.path.join(d, "in.ndjson"), os.path.join(d, "out.ndjson")
+    with open(i, "w") as fh:
+        for r in recs:
+            fh.write(json.dumps(r) + "\n")
+    ctx.run([vh, "smf-rerun", "-in", i, "-out", o] + (["-full"] if full else []), timeout=1800)
+    new = json.loads(open(o).read().splitlines()[-1])
+    new["judge"] = recs[-1].get("judge", "")
+    bad = ctx.validate("Trace_Smf", [new], shards=1)
+    return bool(bad), new, (bad[0][1] if bad else None)
+
+
 def signature(rec, info):
     info = info or {}
     ev = rec.get("ev")
@@ -95,7 +110,9 @@ def validate(ctx, recs):
         r = recs[idx]
         if info and info.get("genbug"):
             raise Machinery("generator produced a file the specification rejects (%s): bytes=%s" % (info.get("parse"), r.get("bytes", [])[:80]))
-        fails.append(Failure(signature(r, info), describe(r, info), {"family": "smf", "record": r}))
+        f = Failure(signature(r, info), describe(r, info), {"family": "smf", "record": r})
+        f.before = recs[max(0, idx - 400):idx]
+        fails.append(f)
     fails.sort(key=lambda f: len(json.dumps(f.payload)))
     return fails
 
@@ -105,12 +122,16 @@ def confirm_factory(ctx):
         rec = f.payload["record"]
         ok, new, info = rerun(ctx, rec, full=(rec.get("ev") == "cut"))
         return ok
+    confirm.in_context = lambda before, f: rerun_many(ctx, before + [f.payload["record"]], full=(f.payload["record"].get("ev") == "cut"))[0]
     return confirm
 
 
 def replay(ctx, payload):
     rec = payload["payload"]["record"]
-    ok, new, info = rerun(ctx, rec, full=(rec.get("ev") == "cut"))
+    if payload["payload"].get("context"):
+        ok, new, info = rerun_many(ctx, payload["payload"]["context"] + [rec], full=(rec.get("ev") == "cut"))
+    else:
+        ok, new, info = rerun(ctx, rec, full=(rec.get("ev") == "cut"))
     print(json.dumps({"info": info})[:3000])
     return ok
 
